@@ -38,7 +38,7 @@ def line_world():
     return {
         'name': 'line',
         'tasks': {
-            'V': {'params': [P('v')], 'inputs': [], 'data': 'json'},
+            'V': {'params': [P('v'), P('dq', default='2', dpdv=True)], 'inputs': [], 'data': 'json'},
             'W': {'params': [P('w', default=0)], 'inputs': [bc('V')], 'data': 'json'},
             'X': {'params': [], 'inputs': [bc('W')], 'data': 'json'},
         },
@@ -156,6 +156,13 @@ def members(tier):
         line.append((f'v=AutoRaw({pth!r})', {'v': {'__obj__': 'AutoRaw', 'kwargs': {'path': pth}}}))
     for v in vals[:60]:
         line.append((f'v=0,w={v!r}', {'v': 0, 'w': v}))
+    # floats that differ only in the last digits a double has
+    for f_ in (0.3, 0.1 + 0.2, 1 / 3, 0.333333333333333, 0.3333333333333334, 1e16, 1e16 + 2, 5e-324, 0.0):
+        line.append((f'v=float {f_!r}', {'v': f_}))
+        line.append((f'v=[{{k: float {f_!r}}}]', {'v': [{'k': [f_]}]}))
+    # a value of another type that merely PRINTS like the not-persisted default ('2'): it is not the default
+    for dq in ('2', 2, 2.0, True, 'True', None, 'None'):
+        line.append((f'v=0,dq={dq!r}', {'v': 0, 'dq': dq}))
     sep = []
     for a, q, r in itertools.product(SEP_VALUES, SEP_VALUES[:8] + [None], SEP_VALUES[:6] + [None]):
         if tier == 'quick' and (hash((str(a), str(q), str(r))) % 3):
